@@ -376,6 +376,35 @@ def check_molecule(case, rec):
     if ref is None:
         return
     check_marks(m, rec, repr(str(m0)), ref, in_gap)
+    # a rejected edit leaves the ring set as it was: close a ring (or open one) inside a transaction, look at the rings of the
+    # state about to be rejected, abort; ring list, counts, marks and components must be those of the untouched molecule
+    t = m.copy()
+    before = (sorted(map(sorted, t.sssr)), t.rings_count, sorted(map(sorted, t.connected_components)),
+              {n: (a.in_ring, tuple(sorted(a.ring_sizes))) for n, a in t.atoms()})
+    pairs = [(x, y) for x in nums for y in nums if x < y and not t.has_bond(x, y)]
+    ring_bonds = [(x, y) for x, y, b in t.bonds() if b.in_ring and b.order != 8]
+    try:
+        with t:
+            if pairs and case['seed'] % 2:
+                x, y = pairs[case['seed'] % len(pairs)]
+                t.add_bond(x, y, 1)
+            elif ring_bonds:
+                x, y = ring_bonds[case['seed'] % len(ring_bonds)]
+                t.delete_bond(x, y)
+            t.rings_count, t.sssr, t.connected_components_count  # validity check inside the block
+            raise RuntimeError('reject')
+    except RuntimeError:
+        pass
+    except Exception as e:
+        rec.count(f'transaction-edit-refused:{type(e).__name__}')
+    after = (sorted(map(sorted, t.sssr)), t.rings_count, sorted(map(sorted, t.connected_components)),
+             {n: (a.in_ring, tuple(sorted(a.ring_sizes))) for n, a in t.atoms()})
+    if after != before:
+        what = [k for k, (p, q) in zip(('rings', 'rings_count', 'components', 'marks'), zip(before, after)) if p != q]
+        rec.fail('rollback', f'{str(m0)!r}: after a rejected transaction that looked at the rings of the edited state, {what} differ from '
+                             f'the untouched molecule', sig=what[0])
+        return
+    rec.count('rejected-transactions')
     # the renumbered copy must not have touched the original: its ring list is still a set of cycles of its own bonds
     adj0 = mcb.mol_adj(m0)
     for r in m0.sssr:
